@@ -80,7 +80,7 @@ def gen_case(rng, tier):
         case.update(kind='corrupt', how=kind, text=t2)
     elif r < 0.85:
         fault = rng.choice(['unresolved-data', 'unresolved-operand', 'unresolved-fill', 'unknown-mnemonic', 'no-variant', 'unfit',
-                            'unfit', 'unfit-subbyte', 'unfit-subbyte', 'bad-expression'])
+                            'unfit', 'unfit-subbyte', 'unfit-subbyte', 'bad-expression', 'empty-operand'])
         ins = {'unresolved-data': '.2byte nosuchlabel + 1', 'unresolved-operand': 'op2 nosuchlabel', 'unresolved-fill': '.fill nosuch, 1',
                'unknown-mnemonic': rng.choice(['frob 1', 'nopx', 'op9 1, 2']), 'no-variant': rng.choice(['op1', 'nop 5', 'op3 1', 'op2 [5]', 'op1 ra']),
                'unfit': rng.choice(['op1 256', 'op1 -129', 'op2 65536', 'op4 $1000000', 'op3 300, 1']),
@@ -88,6 +88,9 @@ def gen_case(rng, tier):
                'unfit-subbyte': rng.choice(['ldn 256', 'ldn -129', 'ldn2 255', 'ld4 16', 'ld4 -9', 'ld4 200', 'ld4 $FF',
                                             'ld4 -%d' % rng.randint(9, 15), 'ld4 0 - %d' % rng.randint(9, 15), 'ld4 -16', 'ld4 -17',
                                             'ld4 -%d' % rng.randint(9, 15), 'ld4 -15', 'ld4 -9']),
+               # an empty operand field (trailing, doubled, leading or lone comma) is an operand no variant accepts: dropping
+               # the empty fields would leave a valid statement
+               'empty-operand': rng.choice(['op3 1, 2,', 'op3 1,,2', 'op3 ,1,2', 'op1 5,', 'op1 ,5', 'nop ,', 'op2 7 ,', 'op3 1 , , 2']),
                # text that is no expression where a value is expected
                'bad-expression': rng.choice(['op1 1 +! 2', 'op2 3 -? 4', 'op1 2 *~ 1', 'op3 1 +` 1, 2', 'op1 1 +! 2', '.byte 1 ! 2',
                                              '.2byte 5 }', '.byte 1 +', 'op1 (1', '.fill 2 ! 3, 1'])}[fault]
